@@ -909,9 +909,12 @@ PROPS["C14"] = {
     "audit": "EpgVerif/Audit/C14.lean",
     "run": run_C14,
     "replay": replay_core,
-    "partial": ["proved on the 1-D state model: T/Phi/P/S isometries, E and Spoiler contractions, symmetric norm = code norm for "
-                "well-formed states; `norm = RMS isochromat length` (Parseval), diffusion contraction and the |signal| <= PD bound "
-                "are covered by the search on the real code only"],
+    "partial": ["proved: T/Phi/P/S isometries, E and Spoiler contractions, shifts along any number of axes are isometries, "
+                "symmetric norm = code norm for well-formed states, norm² = mean squared isochromat length (Parseval, composed with "
+                "C01's ensemble theorem), |F0| <= PD for every sequence of pulses / evolutions with T2 <= 2 T1 / shifts / spoilers "
+                "(1-D matrices, and n-D coordinate tables with diagonal contractions), scalar diffusion (D >= 0) is such a "
+                "contraction. Not proved: tensor diffusion contraction (needs D positive semi-definite; searched), merge/prune "
+                "back-ends (searched)"],
 }
 
 PROPS["C13"] = {
@@ -1099,7 +1102,7 @@ EXTRA_MODULES = {
     "C11": ["EpgVerif.Tie.SeqSites", "EpgVerif.Props.C11Run"],
     "C12": ["EpgVerif.Tie.SimSites", "EpgVerif.Tie.Modify"],
     "C13": ["EpgVerif.Tie.ShiftSites"],
-    "C14": ["EpgVerif.Tie.ShiftSites"],
+    "C14": ["EpgVerif.Tie.ShiftSites", "EpgVerif.Props.C14Bound", "EpgVerif.Props.C14Parseval"],
     "C15": ["EpgVerif.Tie.PhysSites"],
     "C16": ["EpgVerif.Tie.CollSites"],
     "C18": ["EpgVerif.Tie.PhysSites", "EpgVerif.Tie.RFPulse"],
